@@ -148,6 +148,8 @@ impl FileSystem for OsFileSystem {
             .create(true)
             .truncate(true)
             .open(path)?;
+        #[cfg(raindb_verif)]
+        crate::verif_hooks::sched::point("lock:after_open");
         file.try_lock_exclusive()?;
 
         Ok(FileLock::new(Box::new(file)))
@@ -310,6 +312,8 @@ impl FileSystem for TmpFileSystem {
             .create(true)
             .truncate(true)
             .open(self.get_rooted_path(path))?;
+        #[cfg(raindb_verif)]
+        crate::verif_hooks::sched::point("lock:after_open");
         file.try_lock_exclusive()?;
 
         Ok(FileLock::new(Box::new(file)))
